@@ -72,7 +72,7 @@ def content_diff(mode, twin, got):
     return bad
 
 
-def order_oracles(ev, n, per):
+def order_oracles(ev, n, per, quotas=None):
     """direct boolean oracles on the ticketed trace"""
     pos = {}
     posts, delivs = [], []
@@ -89,7 +89,9 @@ def order_oracles(ev, n, per):
             posts.append((int(f[1]), int(f[2])))
         elif f[0] == 'D':
             delivs.append((int(f[1]), int(f[2])))
-    want = [(p, i) for p in range(n) for i in range(per)]
+    quotas = quotas or [per] * n
+    n = len(quotas)
+    want = [(p, i) for p in range(n) for i in range(quotas[p])]
     missing = [m for m in want if ('D',) + m not in pos]
     if missing:
         bad.append(('lost', 'message %d of producer %d never delivered (%d missing)' % (missing[0][1], missing[0][0], len(missing)), len(ev)))
@@ -139,6 +141,16 @@ def gen_configs(chk, reps, total):
     return cfgs
 
 
+def special_configs(chk, reps):
+    """a sink that logs from the logger thread while a backlog is queued; a producer logging while resetOwnThread() drains"""
+    cfgs = []
+    for _ in range(reps):
+        for mode, n, per in (('relog', 2, 300), ('relog', 4, 150), ('drain', 2, 15)):
+            cfgs.append({'mode': mode, 'n': n, 'per': per, 'seed': chk.rng.randrange(1, 2 ** 31), 'perturb': chk.rng.choice([0, 1]),
+                         'sinkdelay': 1 if mode == 'relog' else 0, 'stall': 0, 'tz': ''})
+    return cfgs
+
+
 def stall_configs(chk, total, ms):
     """a stalled sink and a large backlog: the sink sleeps `ms` inside its first delivery while `total` messages are posted;
     no logging call may wait for it"""
@@ -149,6 +161,9 @@ def stall_configs(chk, total, ms):
 def evaluate(chk, model, cfg, res, stats, report):
     rc, hdr, ev, tw, asy, flushes, err = res
     n, per, mode = cfg['n'], cfg['per'], cfg['mode']
+    mq = re.search(r'quotas=([\d,]+)', hdr or '')
+    quotas = [int(x) for x in mq.group(1).split(',')] if mq else [per] * n
+    cmode = 'logger' if mode == 'relog' else ('bare' if mode == 'drain' else mode)      # how the twin records were made
     if rc != 0 or hdr is None or 'AddressSanitizer' in err or 'runtime error' in err:
         kind = 'hang' if rc == 124 else ('sanitizer' if ('AddressSanitizer' in err or 'runtime error' in err) else 'crash')
         stats['kinds'][kind] = stats['kinds'].get(kind, 0) + 1
@@ -156,8 +171,26 @@ def evaluate(chk, model, cfg, res, stats, report):
                dict(cfg, kind=kind, rc=rc, stderr=err[-1500:]), kind)
         return
     stats['events'] += len(ev); stats['deliveries'] += len(asy)
-    # --- the logging call never waits for a sink
+    # --- a sink that logs from the logger thread: the nested message is queued like any other, the pipeline never runs nested
+    mn = re.search(r'max_nesting=(\d+)', hdr)
+    if mode == 'relog':
+        stats['relog_runs'] += 1
+        if mn and int(mn.group(1)) > 1:
+            stats['kinds']['nested_pipeline'] = stats['kinds'].get('nested_pipeline', 0) + 1
+            report('a message logged by a sink on the logger thread was run through the pipeline NESTED inside the delivery of another message '
+                   '(depth %s) instead of being queued behind the %d messages already posted' % (mn.group(1), sum(quotas) - 1),
+                   dict(cfg, kind='nested_pipeline', depth=int(mn.group(1)), header=hdr), 'nested_pipeline')
+    # --- a producer logging while resetOwnThread() drains the backlog behind a slow sink
     mc = re.search(r'maxcall_us=(\d+)', hdr)
+    if mode == 'drain' and mc:
+        stats['drain_runs'] += 1
+        stats['max_call_ms_during_drain'] = max(stats['max_call_ms_during_drain'], int(mc.group(1)) // 1000)
+        if int(mc.group(1)) > 500000:
+            stats['kinds']['blocked_on_sink'] = stats['kinds'].get('blocked_on_sink', 0) + 1
+            report('a logging call made 200 ms after resetOwnThread() began took %d ms: it waited until the slow sink (100 ms per message) had '
+                   'drained the %d queued messages' % (int(mc.group(1)) // 1000, quotas[0]),
+                   dict(cfg, kind='blocked_on_sink', scenario='drain', max_call_ms=int(mc.group(1)) // 1000, queued=quotas[0], header=hdr), 'blocked_on_sink')
+    # --- the logging call never waits for a sink
     if cfg.get('stall') and mc:
         stats['stalled_sink_runs'] += 1
         stats['max_call_ms_while_sink_stalled'] = max(stats['max_call_ms_while_sink_stalled'], int(mc.group(1)) // 1000)
@@ -173,7 +206,7 @@ def evaluate(chk, model, cfg, res, stats, report):
             stats['kinds']['foreign'] = stats['kinds'].get('foreign', 0) + 1
             report('sink received a message nobody sent: producer %d index %d' % (p, i), dict(cfg, kind='foreign', delivered=d), 'foreign')
             break
-        bad = content_diff(mode, twin, d)
+        bad = content_diff(cmode, twin, d)
         if bad:
             stats['kinds']['content'] = stats['kinds'].get('content', 0) + 1
             report('delivered message differs from what a synchronous sink sees in field(s) %s (message %d of producer %d, %s mode)'
@@ -200,9 +233,10 @@ def evaluate(chk, model, cfg, res, stats, report):
                % (off[0][0], off[0][1]), dict(cfg, kind='off_worker', entry='flush', producer=off[0][0], index=off[0][1],
                                                message_type=(tw.get((off[0][0], off[0][1])) or ['?'])[0], flush_entries_off_worker=len(off)), 'off_worker')
     stats['null_ptr_msgs'] += sum(1 for v in tw.values() if v[2] == '-')
+    stats['nul_texts'] += sum(1 for v in tw.values() if '00' in [v[1][k:k + 2] for k in range(1, len(v[1]), 2)])
     stats['preformatted_msgs'] += sum(1 for v in tw.values() if v[9] != '-')
     # --- model copy == implementation (bare mode: the twin dump is the original message)
-    if mode == 'bare' and asy:
+    if cmode == 'bare' and asy:
         keys = [(p, i) for _, p, i, _, _ in asy if (p, i) in tw]
         rcm, outm, _ = vlib.run_lines(model, ['|'.join(tw[k]) for k in keys], ['copy'])
         got = {(p, i): d for _, p, i, _, d in asy}
@@ -210,12 +244,12 @@ def evaluate(chk, model, cfg, res, stats, report):
             stats['model_copies'] += 1
             if mo.split('|') != canon(got[key])[:11]:
                 stats['model_disagreements'] += 1
-                if not content_diff(mode, tw[key], got[key]):
+                if not content_diff(cmode, tw[key], got[key]):
                     chk.broke('model copy differs from the delivered message although it equals its twin', dict(cfg, kind='model_copy', model=mo, impl='|'.join(got[key])))
                 break
     # --- order: acceptor + direct oracles
-    bad = order_oracles(ev, n, per)
-    line = '%d %s %s' % (n, ','.join([str(per)] * n), ' '.join(t for t in ev if t[0] in 'CPRTD'))
+    bad = order_oracles(ev, n, per, quotas)
+    line = '%d %s %s' % (len(quotas), ','.join(str(q) for q in quotas), ' '.join(t for t in ev if t[0] in 'CPRTD'))
     _, outa, _ = vlib.run_lines(model, [line], ['trace'])
     try:
         acc, pre, tot = (int(x) for x in outa[0].split())
@@ -259,12 +293,13 @@ def run():
     model = vlib.build_model('async')
     impl = vlib.build_harness('async')
     thorough = chk.tier == 'thorough'
-    cfgs = stall_configs(chk, 40000 if thorough else 10400, 1500) + gen_configs(chk, 8 if thorough else 2, 1200)
+    cfgs = stall_configs(chk, 40000 if thorough else 10400, 1500) + special_configs(chk, 3 if thorough else 1) + gen_configs(chk, 8 if thorough else 2, 1200)
     if not proof_ok:
-        cfgs += gen_configs(chk, 3, 1200) + stall_configs(chk, 40000, 2500)
+        cfgs += gen_configs(chk, 3, 1200) + stall_configs(chk, 40000, 2500) + special_configs(chk, 2)
     stats = {'events': 0, 'deliveries': 0, 'kinds': {}, 'model_copies': 0, 'model_disagreements': 0, 'acceptor_runs': 0,
              'max_backlog': 0, 'runs_with_backlog': 0, 'null_ptr_msgs': 0, 'preformatted_msgs': 0,
-             'stalled_sink_runs': 0, 'max_call_ms_while_sink_stalled': 0, 'fatal_msgs': 0}
+             'stalled_sink_runs': 0, 'max_call_ms_while_sink_stalled': 0, 'fatal_msgs': 0, 'relog_runs': 0, 'drain_runs': 0,
+             'max_call_ms_during_drain': 0, 'nul_texts': 0}
     reported = [0]
 
     def report(what, replay, kind):
@@ -304,10 +339,11 @@ def run():
                     'model_copies_compared': stats['model_copies'], 'model_vs_impl_disagreements': stats['model_disagreements'],
                     'traces_fed_to_acceptor': stats['acceptor_runs'], 'max_backlog_seen': stats['max_backlog'],
                     'runs_with_backlog_ge_2': stats['runs_with_backlog'],
-                    'mode_histogram': {m: sum(1 for c, _ in results if c['mode'] == m) for m in ('bare', 'logger')},
+                    'mode_histogram': {m: sum(1 for c, _ in results if c['mode'] == m) for m in ('bare', 'logger', 'relog', 'drain')},
                     'producers_histogram': {str(n): sum(1 for c, _ in results if c['n'] == n) for n in (1, 2, 4, 8, 16)},
                     'sinkdelay_histogram': {str(d): sum(1 for c, _ in results if c['sinkdelay'] == d) for d in range(3)},
-                    'fatal_level_messages': stats['fatal_msgs'],
+                    'fatal_level_messages': stats['fatal_msgs'], 'texts_with_embedded_NUL': stats['nul_texts'],
+                    'relogging_sink_runs': stats['relog_runs'], 'drain_runs': stats['drain_runs'], 'max_call_ms_during_drain': stats['max_call_ms_during_drain'],
                     'tz_histogram': {z or 'inherited': sum(1 for c, _ in results if c.get('tz', '') == z) for z in ('DEMO-05:30', 'XYZ+03', '')},
                     'stalled_sink_runs': stats['stalled_sink_runs'], 'max_call_ms_while_sink_stalled': stats['max_call_ms_while_sink_stalled'],
                     'violation_kinds': stats['kinds'], 'sanitizer_variant': san})
